@@ -98,8 +98,22 @@ pub fn garbage_under_nulls(rng: &mut Rng, a: &ArrayRef) -> Option<ArrayRef> {
             let mut bytes = src.to_vec();
             for i in 0..a.len() {
                 if nulls.is_null(i) {
-                    for b in &mut bytes[i * w..(i + 1) * w] {
-                        *b = rng.next() as u8;
+                    // values that make fallible operations fail if they are (wrongly) evaluated
+                    // under a null: 0 (division), -1 / MIN / MAX (overflow), or random bytes
+                    let mode = rng.below(5);
+                    let cell = &mut bytes[i * w..(i + 1) * w];
+                    match mode {
+                        0 => cell.iter_mut().for_each(|b| *b = 0),
+                        1 => cell.iter_mut().for_each(|b| *b = 0xFF),
+                        2 => {
+                            cell.iter_mut().for_each(|b| *b = 0);
+                            cell[w - 1] = 0x80;
+                        }
+                        3 => {
+                            cell.iter_mut().for_each(|b| *b = 0xFF);
+                            cell[w - 1] = 0x7F;
+                        }
+                        _ => cell.iter_mut().for_each(|b| *b = rng.next() as u8),
                     }
                 }
             }
